@@ -79,18 +79,23 @@ Sub(s, start, i) ==
   ELSE Sub(s, start, i + 1)
 SplitLines(s) == Sub(s, 1, 1)
 
-P0 == [code |-> 0, text |-> <<>>, has |-> FALSE, crash |-> FALSE]
+P0 == [code |-> 0, text |-> <<>>, has |-> FALSE, crash |-> FALSE, open |-> 0]
 
 ParseSub(st, sub) ==
   LET d3 == Len(sub) >= 3 /\ IsDigit(sub[1]) /\ IsDigit(sub[2]) /\ IsDigit(sub[3])
       n1 == IF d3 THEN 3 ELSE 0
       g2 == IF Len(sub) > n1 /\ sub[n1 + 1] \in {SP, DASH} THEN sub[n1 + 1] ELSE 0
       g3 == SubSeq(sub, n1 + (IF g2 # 0 THEN 1 ELSE 0) + 1, Len(sub))
-      fin == d3 /\ g2 = SP
+      \* the first line opens a multi-line reply: only a line with the same code ends it (RFC 959 4.2)
+      op  == IF ~st.has /\ d3 /\ g2 = DASH THEN Code3(sub) ELSE st.open
+      fin == d3 /\ g2 = SP /\ (op = 0 \/ Code3(sub) = op)
+      \* an intermediary line that merely begins with a number and a space is kept whole
+      tx  == IF d3 /\ g2 = SP /\ ~fin THEN sub ELSE g3
   IN [code  |-> IF fin /\ st.code = 0 THEN Code3(sub) ELSE st.code,
       crash |-> st.crash \/ (fin /\ st.code # 0),          \* 'Reply has more than one final line' (was: assert)
       has   |-> TRUE,
-      text  |-> IF st.has THEN st.text \o CRLF \o g3 ELSE g3]
+      open  |-> op,
+      text  |-> IF st.has THEN st.text \o CRLF \o tx ELSE tx]
 
 RECURSIVE ParseSubs(_, _, _)
 ParseSubs(st, subs, i) == IF i > Len(subs) \/ st.crash THEN st ELSE ParseSubs(ParseSub(st, subs[i]), subs, i + 1)
